@@ -301,6 +301,9 @@ func buildOracle(b builds, cfg tierCfg, pre map[int]string) oracleInfo {
 			return r
 		}
 		for i, id := range o.IDs {
+			if i < len(o.Steps) && o.Steps[i] >= proto.StepsBeyondSimulator {
+				continue // beyond the simulator's tables in the instrumented pass: not an observation
+			}
 			if o.Outcomes[i] != ref[id] {
 				r := seqRecord(&oi.corpus, o.IDs, i, ref, "result_mismatch", build)
 				r.Violations = []proto.Violation{{Class: "result_mismatch", Task: 0, Op: i, Fn: oi.corpus.Calls[id].Fn,
